@@ -11,6 +11,9 @@ mod symbols;
 pub mod testing;
 mod traits;
 
+#[cfg(mos_verif)]
+pub(crate) use crate::lsp::formatting::verif_get_text_edits;
+
 use crate::config::Config;
 use crate::diagnostic_emitter::MosResult;
 use crate::lsp::code_lens::CodeLensRequestHandler;
